@@ -25,7 +25,12 @@ def make_args(ex, f, dom, strlen=None):
     for p in f.params:
         ty = f.locals[p]; nm = f.debug.get(p, p)
         if ty == 'bool':
-            v = z3.Bool('a_' + nm); args.append(BV(v)); names.append((nm, 'bool', v)); continue
+            v = z3.Bool('a_' + nm); names.append((nm, 'bool', v))
+            if nm in dom and isinstance(dom[nm], bool):
+                from .sym import mk_bool
+                args.append(mk_bool(dom[nm])); cons.append(v == dom[nm])
+            else: args.append(BV(v))
+            continue
         if ty in INT_TYPES:
             lo, hi = ty_range(ty)
             if nm in dom: lo, hi = max(lo, dom[nm][0]), min(hi, dom[nm][1])
@@ -94,7 +99,7 @@ def model_to_args(names, vals, buf_decoders=None):
 
 def run_slice(prog, ob, slice_dom, checks_on, qdir, tier_timeout, validate_points=None, seed=0, cross_check=False):
     """decide one (obligation, profile, slice). returns a JSON-able record."""
-    rec = {'fn': ob.fn, 'kind': ob.kind, 'profile': 'overflow-checks=' + ('on' if checks_on else 'off'), 'slice': {k: list(v) for k, v in slice_dom.items()},
+    rec = {'fn': ob.fn, 'kind': ob.kind, 'profile': 'overflow-checks=' + ('on' if checks_on else 'off'), 'slice': {k: (list(v) if isinstance(v, (tuple, list)) else v) for k, v in slice_dom.items()},
            'abstractions': list(ob.abstractions), 'known_finding_classes_assumed_away': list(ob.kf)}
     t_start = time.time()
     try:
@@ -191,7 +196,13 @@ def validate_encoding(prog, ob, se, base, viol, wit, points, checks_on):
     """push concrete argument tuples through the native build and through the encoding (arguments fixed); both must agree"""
     names = [(nm, ty, v) for nm, ty, v in se['names']]
     over_approx = any('/uf' in a or '/bound' in a for a in ob.abstractions)
-    calls = [(ob.fn, [('true' if x is True else 'false' if x is False else str(x)) for x in pt]) for pt in points]
+    def sarg(x):
+        if x is True: return 'true'
+        if x is False: return 'false'
+        if isinstance(x, (bytes, bytearray)): return x.hex() if x else '-'
+        return str(x)
+    calls = [(ob.fn, [sarg(x) for x in pt]) for pt in points]
+    names = [(nm, ty, v) for nm, ty, v in names if not nm.startswith('__')]
     native = prog.scratch.native(not checks_on, calls)
     s = z3.Solver(); s.set('timeout', 30000)
     for c in base: s.add(c)
@@ -199,7 +210,9 @@ def validate_encoding(prog, ob, se, base, viol, wit, points, checks_on):
     for pt, nat in zip(points, native):
         s.push()
         for (nm, ty, v), x in zip(names, pt):
-            s.add(v == (z3.BoolVal(x) if ty == 'bool' else x))
+            if ty.startswith('strbuf:'):
+                for i, byte in enumerate(x): s.add(z3.Int('a_%s_b%d' % (nm, i)) == byte)
+            else: s.add(v == (z3.BoolVal(x) if ty == 'bool' else x))
         # restricted domains: a point outside the slice is skipped
         if s.check() != z3.sat:
             s.pop(); continue
@@ -227,6 +240,9 @@ def gen_points(prog, ob, n, seed):
     for p in f.params:
         ty = f.locals[p]; nm = f.debug.get(p, p)
         if ty == 'bool': cols.append([True, False]); continue
+        if ty in ('&str', '&[u8]'):
+            L = ob.strlen if ob.strlen is not None else 20
+            cols.append(string_corpus(L, rng)); continue
         if ty not in INT_TYPES: return []
         lo, hi = ty_range(ty)
         if nm in ob.dom: lo, hi = max(lo, ob.dom[nm][0]), min(hi, ob.dom[nm][1])
@@ -235,3 +251,27 @@ def gen_points(prog, ob, n, seed):
     for _ in range(n):
         pts.append([rng.choice(c) for c in cols])
     return pts
+
+STRING_SEEDS = ["2022-05-02T15:30:20Z", "2022-05-02T15:30:20.5Z", "2022-05-02T15:30:20.123456789+01:00", "2022-05-02T15:30:20-23:59", "0001-01-01T00:00:00Z",
+                "9999-12-31T23:59:59.999999999999Z", "2022-13-02T15:30:20Z", "2022-02-30T15:30:20Z", "2022-05-02T24:30:20Z", "2022-05-02t15:30:20z", "-001-05-02T15:30:20Z",
+                "2022-05-02T15:30:20+24:00", "2022-05-02T15:30:20.Z", "2022-05-02T15:30:20.12345678901234567890Z", "2022x05x02x15x30x20Z", "2022-05-02T15:30:20ZZ",
+                "2022-05-02T15:30:20\u00e9Z", "\u00e9022-05-02T15:30:20Z", "2022-05-02T15:30:2\u00e9", "EST5EDT,M3.2.0,M11.1.0", "<+03>-3", "CET-1CEST,M3.5.0,M10.5.0/3", "A1", "UTC0", "J60", ""]
+def string_corpus(L, rng):
+    out = []
+    for s in STRING_SEEDS:
+        b = s.encode('utf8')
+        if len(b) < L: b = b + (b'0' * (L - len(b)))
+        b = b[:L]
+        try: b.decode('utf8')
+        except UnicodeDecodeError: continue
+        if any(x >= 0xE0 for x in b): continue
+        out.append(b)
+        # one-byte mutation keeping ASCII
+        if L:
+            m = bytearray(b); i = rng.randrange(L)
+            if m[i] < 128 and (i + 1 >= L or m[i + 1] < 128 or True):
+                m[i] = rng.choice(b'0123456789Z+-.:T ')
+                try:
+                    bytes(m).decode('utf8'); out.append(bytes(m))
+                except UnicodeDecodeError: pass
+    return out or [b'0' * L]
